@@ -7,8 +7,8 @@ import (
 )
 
 func init() {
-	register("C41", []string{"./objstorage/objstorageprovider"}, runC41)
-	propExplain["C41"] = "Decides the ordering clause of C41 in the object provider: sharedUnref deletes its own reference marker (or finds it already gone) before it lists the remaining markers, and deletes the shared object only through the nil-error edge of that listing and only on the branch where the listing is empty; AttachRemoteObjects creates its own reference before it checks the origin's marker, registers the objects only if that check returned no error, and drops its reference when the check fails. Does not decide the remote store's consistency model."
+	register("C41", []string{"./objstorage/objstorageprovider", "./objstorage/objstorageprovider/remoteobjcat", "./record"}, runC41)
+	propExplain["C41"] = "Decides the ordering clause of C41 in the object provider: sharedUnref deletes its own reference marker (or finds it already gone) before it lists the remaining markers, and deletes the shared object only through the nil-error edge of that listing and only on the branch where the listing is empty; AttachRemoteObjects creates its own reference before it checks the origin's marker, registers the objects only if that check returned no error, and drops its reference when the check fails; the catalog replay tells a torn tail from corruption by identity comparison (err == io.EOF, record.IsInvalidRecord), so no function below record.Reader.Next returns a wrapped error. Does not decide the remote store's consistency model."
 }
 
 func argFromCall(idx int, short string) M {
@@ -29,6 +29,11 @@ func argFromCall(idx int, short string) M {
 }
 
 func runC41(c *Ctx) {
+	// C41.E2: the shared-object catalog is replayed like the MANIFEST: a torn tail is told from
+	// corruption by identity comparison, so the reader hands its sentinels on unwrapped.
+	if fn := c.Fn("C41.E2", "osp/remoteobjcat.(*Catalog).loadFromCatalogFile"); fn != nil {
+		c.ErrIdentityIn("C41.E2", fn, 1, "rec.IsInvalidRecord")
+	}
 	storage := c.Iface("C41.O1", "remote.Storage")
 	if fn := c.Fn("C41.O1", "osp.(*provider).sharedUnref"); fn != nil && storage != nil {
 		delRef := And(ImplCall(storage, "remote.Storage", "Delete"), argFromCall(-1, "sharedObjectRefName"))
